@@ -45,7 +45,9 @@ def run(chk):
     repo = chk.repo
     r1_temp_then_rename(chk, repo)
     r2_markers(chk, repo)
+    r2b_formatted_exception(chk, repo)
     r3_futures(chk, repo)
+    r3b_inlined_savers(chk, repo)
     r4_read_paths(chk, repo)
     r5_close_in_exception_context(chk, repo)
     r6_failed_save(chk, repo)
@@ -488,6 +490,42 @@ def r5_close_in_exception_context(chk, repo):
     chk.check(ok, "C04.R5", sf, None, "Saver.save_from can exit (normally or by exception) without closing the saver: the temp directory is left without markers", site_text="Saver.save_from: every exit passes close() (or finds it closed)")
 
 
+def r2b_formatted_exception(chk, repo):
+    """Saver.close records a failure iff formatted_exception() is non-empty: it may be empty only when
+    nothing (or a StopIteration) is being handled - not for KeyboardInterrupt / SystemExit /
+    GeneratorExit, which interrupt a save just as well."""
+    f = repo.func("formatted_exception", "strax/utils.py")
+    cfg = cfg_of(f)
+    empties = [n for n in cfg.stmt_nodes() if isinstance(n.stmt, ast.Return) and isinstance(n.stmt.value, ast.Constant) and n.stmt.value.value == ""]
+    chk.check(len(empties) >= 1, "C04.R2", f, None, "formatted_exception never returns an empty string", site_text="formatted_exception: empty for no exception")
+    for n in empties:
+        gs = [g for g in cfg.dominating_guards(n) if g.test is not None and g.owner is enclosing(n.stmt, (ast.If,))]
+        names = {x.id for g in gs for x in ast.walk(g.test) if isinstance(x, ast.Name)} | {x.attr for g in gs for x in ast.walk(g.test) if isinstance(x, ast.Attribute)}
+        broad = names & {"Exception", "BaseException", "KeyboardInterrupt", "SystemExit", "GeneratorExit"}
+        chk.check(not broad, "C04.R2", f, n.stmt, f"formatted_exception returns an empty string depending on {sorted(broad)}: an interrupted save (Ctrl-C, sys.exit, generator closed) is then finalised without a failure marker and the partial data is visible as valid", site_text="formatted_exception: empty only for no exception / StopIteration", site={"function": f.qualname, "rule": "only None and StopIteration are not recorded"})
+
+
+def r3b_inlined_savers(chk, repo):
+    """Savers inlined into a multiprocess source plugin write inside the compute futures; cleanup()
+    must look at those futures before it closes the savers as complete."""
+    f = repo.func("ParallelSourcePlugin.cleanup", "strax/plugins/parrallel_source_plugin.py")
+    cfg = cfg_of(f)
+    WF = f.params[1]
+    closes = [n for n in cfg.stmt_nodes() if not isinstance(n.stmt, COMPOUND) and node_calls(n, lambda c, nm: nm.endswith(".close") and any(k.arg == "wait_for" for k in c.keywords))]
+    chk.check(len(closes) >= 1, "C04.R3", f, None, "ParallelSourcePlugin.cleanup no longer closes the inlined savers", site_text="ParallelSourcePlugin.cleanup: closes the inlined savers")
+
+    def observes(n):
+        return n.kind == "stmt" and isinstance(n.stmt, ast.For) and norm(n.stmt.iter) == WF and any(isinstance(c.func, ast.Attribute) and c.func.attr in ("result", "exception") for st in n.stmt.body for c in calls_in(st))
+
+    for n in closes:
+        if enclosing(n.stmt, (ast.ExceptHandler,)) is not None:
+            chk.ok("C04.R3", "ParallelSourcePlugin.cleanup: savers closed inside the failure handler (exception marker recorded)")
+            continue
+        ok, _p = cfg.every_path([cfg.entry], [n], observes, "n")
+        chk.check(ok, "C04.R3", f, n.stmt, "the inlined savers are closed as complete without the outcome of the computations (which contain their writes) having been looked at: a chunk write that failed in a worker process leaves data that is reported as stored with a chunk missing",
+                  site_text="ParallelSourcePlugin.cleanup: futures observed (result()) before the normal-path close", site={"function": f.qualname, "rule": "futures observed before close"})
+
+
 # ------------------------------------------------------------------------------------ R6
 def failure_recorded(chk, repo, rule):
     sf = repo.func("Saver.save_from", COMMON)
@@ -550,6 +588,10 @@ def r6_failed_save(chk, repo):
 
 
 WITNESSES = [
+    W("interrupts are not recorded as failures", "C04.R2", "strax/utils.py",
+      "if exc_info[0] in [None, StopIteration]:", "if exc_info[0] is None or not issubclass(exc_info[0], Exception) or exc_info[0] is StopIteration:"),
+    W("inlined savers closed without looking at the futures (the original defect)", "C04.R3", "strax/plugins/parrallel_source_plugin.py",
+      "for f in wait_for:\n                f.result()", "pass"),
     W("I/O errors while creating a saver are skipped", "C04.R6", "strax/context.py",
       "except strax.DataNotAvailable:\n                # This frontend cannot save. Too bad.", "except (strax.DataNotAvailable, OSError):\n                # This frontend cannot save. Too bad."),
     W("close failure not recorded (the original defect)", "C04.R6", COMMON,
